@@ -391,7 +391,7 @@ func (m *streeModel) ruleCloneTree(c *Ctx) {
 
 func runC01(c *Ctx) {
 	P := c.P
-	c.Explanation = "Decides structural clauses: (R-CLONE-FRESH) Tree.Clone's root is a deep copy — every node allocated by node.clone has both child links set to copies (clone results, nil or other fresh nodes), never to a pointer of the original, and clone never writes the original; so no node is shared and later changes to either tree cannot affect the other. (R-YIELD) inorder/inorderAfter/Inorder/InorderAfter stop calling yield once it returned false and forward the stop flag. (R-ORIENT) the side on which smaller keys live is read from the ascending in-order walk (the child visited before the node is yielded); all four key descents (insert, remove, Get, pathTo) go to that side when key < node and to the other when key > node; Min/Max/popMinRight/inorderAfter and the bulk loader follow the same orientation. Does NOT decide that contents/return values equal a reference set over histories, size/max bookkeeping, the DSW rebuild, or de-duplication in New."
+	c.Explanation = "Decides structural clauses: (R-CLONE-FRESH) Tree.Clone's root is a deep copy — every node allocated by node.clone has both child links set to copies (clone results, nil or other fresh nodes), never to a pointer of the original, and clone never writes the original; so no node is shared and later changes to either tree cannot affect the other. (R-YIELD) inorder/inorderAfter/Inorder/InorderAfter stop calling yield once it returned false and forward the stop flag. (R-ORIENT) the side on which smaller keys live is read from the ascending in-order walk (the child visited before the node is yielded); all four key descents (insert, remove, Get, pathTo) go to that side when key < node and to the other when key > node; Min/Max/popMinRight/inorderAfter and the bulk loader follow the same orientation. (R-CMP-SIGN) every test of the comparison's result against a constant is a pure sign test; (R-REBUILD-USED) the subtree returned by the in-place rebuild is returned or stored in a link, never dropped. Does NOT decide that contents/return values equal a reference set over histories, size/max bookkeeping, the DSW rebuild, or de-duplication in New."
 	c.rule("R-CLONE-FRESH", 5, "clone's copies link only to copies; Tree.Clone's root is node.clone(root)")
 	c.rule("R-YIELD", 4, "in-order iteration is stoppable")
 	c.rule("R-ORIENT", 12, "descents and one-sided navigation agree with the orientation of the in-order walk")
@@ -399,11 +399,15 @@ func runC01(c *Ctx) {
 	c.rule("R-ROOT-FLOW", 5, "the root stored by Add/Replace/Remove derives from the result of the modification (through rewrite at most), on every path where something changed")
 	c.rule("R-NEW-DEDUP", 2, "New sorts (or checks sortedness) and de-duplicates on every path to the bulk loader")
 	c.rule("R-SIZE-PAIR", 2, "the cached element count changes by +1 under a successful insertion, −1 under a successful removal, or to 0 with the root dropped")
+	c.rule("R-CMP-SIGN", 6, "every test of the comparison function's result against a constant is a test of its sign only")
+	ruleCmpSign(c, "R-CMP-SIGN", P.PkgFuncs("stree"))
 	m := buildStreeModel(c)
 	if m == nil {
 		return
 	}
 	m.ruleCloneTree(c)
+	c.rule("R-REBUILD-USED", 2, "the subtree returned by the in-place rebuild replaces the subtree that was handed to it (returned to the caller or stored in a link), never dropped")
+	m.ruleRebuildUsed(c)
 	var yf []*ssa.Function
 	for _, t := range [][2]string{{"node", "inorder"}, {"node", "inorderAfter"}, {"Tree", "Inorder"}, {"Tree", "InorderAfter"}} {
 		fn := P.Func("stree", t[0], t[1])
@@ -575,7 +579,7 @@ func (m *streeModel) ruleCursorGuard(c *Ctx) {
 
 func runC03(c *Ctx) {
 	P := c.P
-	c.Explanation = "Decides structural clauses: (R-GUARD valid) in every method of *stree.Cursor each dereference of the cursor (and each call of the private findNext/findPrev, whose precondition is validity) is dominated by a successful Valid() check, chaining methods return the receiver and Key returns the zero value on the invalid path — so operations on an invalid or nil cursor are harmless no-ops. (R-CLONE-FRESH) Cursor.Clone copies the path (fresh slice) or returns the receiver only when it is invalid, so clones move independently. (R-ORIENT) every navigation method reads the child sides binary-search-tree navigation requires, relative to the orientation of the in-order walk: Left/HasLeft/Min the small side, Right/HasRight/Max the large side, findNext large-then-small with Next descending small, findPrev/Prev mirrored. (R-YIELD) Cursor.Inorder is stoppable. Does NOT decide that Next/Prev land on exactly the adjacent key for every tree shape (needs the BST invariant, C01's undecided part) nor Cursor(key) validity."
+	c.Explanation = "Decides structural clauses: (R-GUARD valid) in every method of *stree.Cursor each dereference of the cursor (and each call of the private findNext/findPrev, whose precondition is validity) is dominated by a successful Valid() check, chaining methods return the receiver and Key returns the zero value on the invalid path — so operations on an invalid or nil cursor are harmless no-ops. (R-CLONE-FRESH) Cursor.Clone copies the path (fresh slice) or returns the receiver only when it is invalid, so clones move independently. (R-ORIENT) every navigation method reads the child sides binary-search-tree navigation requires, relative to the orientation of the in-order walk: Left/HasLeft/Min the small side, Right/HasRight/Max the large side, findNext large-then-small with Next descending small, findPrev/Prev mirrored. (R-YIELD) Cursor.Inorder is stoppable. (R-ASCEND-GATED) Next (Prev) shortens or drops the path only on paths where a large-side (small-side) child link has been read. (R-CMP-SIGN) comparison results are tested by sign only. Does NOT decide that Next/Prev land on exactly the adjacent key for every tree shape (needs the BST invariant, C01's undecided part) nor Cursor(key) validity."
 	c.rule("R-GUARD", 14, "every cursor dereference is under Valid(); results on the invalid path are receiver / false / zero")
 	c.rule("R-CLONE-FRESH", 1, "Cursor.Clone's path is a fresh copy, or the receiver is returned only when invalid")
 	c.rule("R-ORIENT", 12, "navigation methods read the child sides BST navigation requires")
@@ -587,6 +591,12 @@ func runC03(c *Ctx) {
 		return
 	}
 	m.ruleCursorGuard(c)
+	c.rule("R-ASCEND-GATED", 2, "Next (Prev) shortens or drops the path only after the current node's large-side (small-side) child has been read on that path: the in-order neighbour is an ancestor only when that subtree is empty")
+	m.ruleAscendGated(c)
+	// Tree.Cursor(key) is built from the search path: the sign discipline of its comparisons is part of
+	// "consistent with key order" (the orientation of the descents themselves is decided under C01/C04)
+	c.rule("R-CMP-SIGN", 6, "every test of the comparison function's result against a constant is a test of its sign only")
+	ruleCmpSign(c, "R-CMP-SIGN", P.PkgFuncs("stree"))
 	// Clone
 	if cl := P.Func("stree", "Cursor", "Clone"); cl != nil {
 		cur := cl.Params[0]
@@ -656,7 +666,7 @@ func runC03(c *Ctx) {
 
 func runC04(c *Ctx) {
 	P := c.P
-	c.Explanation = "Decides: (R-GUARD nil) 'a zero Map behaves as an empty read-only map' — every use of the possibly-nil tree pointer (Map.m / Iter.m) as a method receiver or bound receiver in package omap is dominated by a != nil test of the same field with no intervening store; the one exemption is Map.Set, documented to panic on a zero Map. Calls on Iter.c (a possibly-nil *stree.Cursor) are allowed because C03's R-GUARD(valid) makes every cursor method nil-safe; this check re-runs that rule and fails if it fails. Does NOT decide agreement with a reference sorted map, Seek positioning, or iterator order."
+	c.Explanation = "Decides: (R-GUARD nil) 'a zero Map behaves as an empty read-only map' — every use of the possibly-nil tree pointer (Map.m / Iter.m) as a method receiver or bound receiver in package omap is dominated by a != nil test of the same field with no intervening store; the one exemption is Map.Set, documented to panic on a zero Map. Calls on Iter.c (a possibly-nil *stree.Cursor) are allowed because C03's R-GUARD(valid) makes every cursor method nil-safe; this check re-runs that rule and fails if it fails. (R-NATURAL-ORDER) omap.New installs cmp.Compare or a comparison that reaches it or handles NaN. (R-REBUILD-USED, R-ROOT-FLOW, shared with C01) the rebuilt subtree and the modified root are kept. Does NOT decide agreement with a reference sorted map, Seek positioning, or iterator order."
 	c.rule("R-GUARD", 6, "every method call on Map.m / Iter.m is under a != nil guard (Map.Set exempt); cursor methods are nil-safe (C03)")
 	mapT, iterT := P.Named("omap", "Map"), P.Named("omap", "Iter")
 	mF, imF := P.Field("omap", "Map", "m"), P.Field("omap", "Iter", "m")
@@ -824,9 +834,40 @@ func runC04(c *Ctx) {
 	c.rule("R-ORIENT", 8, "key descents of the underlying tree agree with the in-order orientation; comparator results are tested by sign")
 	c.rule("R-RELINK", 1, "deleting a two-child node re-attaches the successor's subtree")
 	c.rule("R-SEEK-RESET", 1, "Iter.Seek starts by invalidating the cursor, so a seek past the last key leaves the iterator invalid")
+	c.rule("R-NATURAL-ORDER", 1, "omap.New orders keys by cmp.Compare (or a comparison that reaches it / handles NaN), the total order the documentation names")
+	if nw := P.Func("omap", "", "New"); nw == nil {
+		c.undecided("ANCHOR", "omap.New", 0, "not found")
+	} else {
+		n := 0
+		for _, f := range buildCallScope(nw).fns {
+			f := f
+			allInstrs(f, func(in ssa.Instruction) {
+				call, ok := in.(*ssa.Call)
+				if !ok {
+					return
+				}
+				for _, a := range call.Call.Args {
+					sig, isSig := a.Type().Underlying().(*types.Signature)
+					if !isSig || sig.Params().Len() != 2 || sig.Results().Len() != 1 || !isIntType(sig.Results().At(0).Type()) {
+						continue
+					}
+					okN, judged, why := naturalCmpVerdict(P, a)
+					if !judged {
+						continue
+					}
+					n++
+					c.judge(okN, "R-NATURAL-ORDER", fmt.Sprintf("omap.New:comparison #%d", n), call.Pos(), why, why)
+				}
+			})
+		}
+	}
+	c.rule("R-REBUILD-USED", 2, "the subtree returned by the in-place rebuild replaces the subtree that was handed to it (returned to the caller or stored in a link), never dropped")
+	c.rule("R-ROOT-FLOW", 5, "the root stored by Add/Replace/Remove derives from the result of the modification")
 	if sm := buildStreeModel(c); sm != nil {
 		sm.ruleDescents(c)
 		sm.ruleRelink(c)
+		sm.ruleRootFlow(c)
+		sm.ruleRebuildUsed(c)
 	}
 	if seek := P.Func("omap", "Iter", "Seek"); seek != nil {
 		cF := P.Field("omap", "Iter", "c")
@@ -1469,5 +1510,170 @@ func (m *streeModel) ruleSubtreeWalk(c *Ctx) {
 		c.ok("R-SUBTREE-WALK", "stree.(*Cursor).Inorder", fn.Pos(), "delegates to node.inorder on the current node: exactly the subtree")
 	} else {
 		c.undecided("R-SUBTREE-WALK", "stree.(*Cursor).Inorder", fn.Pos(), why+": whether exactly the keys of the subtree are listed cannot be established (only the delegating form is recognised)")
+	}
+}
+
+// ruleRebuildUsed: rewrite relinks the nodes it is given in place and returns
+// the new subtree root; the pointer it was handed afterwards reaches only part
+// of the subtree.  So at every call the result must take the place of the
+// argument: flow (through φ) into a return value or into a store to a link
+// field.  A result that is only kept in a local is a lost subtree.
+func (m *streeModel) ruleRebuildUsed(c *Ctx) {
+	P := c.P
+	rewrite := P.Func("stree", "", "rewrite")
+	if rewrite == nil {
+		c.undecided("ANCHOR", "stree.rewrite", 0, "not found")
+		return
+	}
+	for _, fn := range P.PkgFuncs("stree") {
+		fn := fn
+		n := 0
+		allInstrs(fn, func(in ssa.Instruction) {
+			call, ok := in.(*ssa.Call)
+			if !ok || staticCallee(&call.Call) == nil || origin(staticCallee(&call.Call)) != rewrite {
+				return
+			}
+			n++
+			key := fmt.Sprintf("%s:rebuilt subtree kept", fnName(fn))
+			if n > 1 {
+				key = fmt.Sprintf("%s #%d", key, n)
+			}
+			used := false
+			seen := map[ssa.Value]bool{}
+			var walk func(v ssa.Value)
+			walk = func(v ssa.Value) {
+				if seen[v] {
+					return
+				}
+				seen[v] = true
+				for _, r := range referrersOf(v) {
+					switch r := r.(type) {
+					case *ssa.Return:
+						used = true
+					case *ssa.Store:
+						if r.Val != v {
+							continue
+						}
+						if _, ok := r.Addr.(*ssa.FieldAddr); ok {
+							used = true
+						} else if al, ok := r.Addr.(*ssa.Alloc); ok {
+							// a variable cell (captured or address-taken): follow its loads
+							for _, r2 := range referrersOf(al) {
+								if ld, ok := r2.(*ssa.UnOp); ok && ld.Op == token.MUL {
+									walk(ld)
+								}
+							}
+						} else {
+							used = true // through a pointer to a link
+						}
+					case *ssa.Phi:
+						walk(r)
+					case *ssa.Call:
+						// handed on to another function: not judged here
+						used = true
+					}
+				}
+			}
+			walk(call)
+			c.judge(used, "R-REBUILD-USED", key, call.Pos(), "result returned or stored in a link", "the rebuilt subtree is dropped: the rebuild relinks the nodes in place, so the pointer still held (the old subtree root) now reaches only part of the elements")
+		})
+	}
+}
+
+// ruleAscendGated: the in-order successor of a node is an ancestor only when
+// the node has no large-side subtree (mirrored for the predecessor).  So in
+// Next every event that shortens or drops the cursor's path must be dominated
+// by a read of a large-side child link — directly or inside a helper (findNext)
+// called before it; in Prev by a read of a small-side link.  A shortcut that
+// moves up after looking only at the other side skips a whole subtree.
+func (m *streeModel) ruleAscendGated(c *Ctx) {
+	P := c.P
+	readsSide := func(fn *ssa.Function, side *types.Var) bool {
+		found := false
+		for _, f := range buildCallScope(fn).fns {
+			for _, a := range m.childAccesses(f) {
+				if !a.store && sameField(a.fld, side) {
+					found = true
+				}
+			}
+		}
+		return found
+	}
+	shortens := func(in ssa.Instruction) bool {
+		st, ok := in.(*ssa.Store)
+		if !ok {
+			return false
+		}
+		fa, ok := st.Addr.(*ssa.FieldAddr)
+		if !ok {
+			return false
+		}
+		if _, f := fieldVarOf(fa); !sameField(f, m.pathF) {
+			return false
+		}
+		if isNilConst(st.Val) {
+			return true
+		}
+		_, isSlice := st.Val.(*ssa.Slice)
+		return isSlice
+	}
+	for _, t := range []struct {
+		name string
+		side *types.Var
+		what string
+	}{{"Next", m.large, "large"}, {"Prev", m.small, "small"}} {
+		fn := P.Func("stree", "Cursor", t.name)
+		if fn == nil {
+			c.undecided("ANCHOR", "stree.(*Cursor)."+t.name, 0, "not found")
+			continue
+		}
+		for _, f := range withClosures(fn) {
+			f := f
+			// gates: instructions of f that read the side (directly or through a callee)
+			var gates []ssa.Instruction
+			allInstrs(f, func(in ssa.Instruction) {
+				switch x := in.(type) {
+				case *ssa.FieldAddr:
+					if _, fld := fieldVarOf(x); isNamedOrigin(x.X.Type(), m.nodeT) && sameField(fld, t.side) {
+						gates = append(gates, in)
+					}
+				case *ssa.Call:
+					if cal := staticCallee(&x.Call); cal != nil && cal.Blocks != nil && origin(cal).Pkg == origin(fn).Pkg && origin(cal) != origin(fn) && readsSide(origin(cal), t.side) {
+						gates = append(gates, in)
+					}
+				}
+			})
+			n := 0
+			allInstrs(f, func(in ssa.Instruction) {
+				ev := shortens(in)
+				if call, ok := in.(*ssa.Call); ok && !ev {
+					if cal := staticCallee(&call.Call); cal != nil && cal.Blocks != nil && origin(cal).Pkg == origin(fn).Pkg && origin(cal) != origin(fn) {
+						for _, g := range buildCallScope(origin(cal)).fns {
+							allInstrs(g, func(in2 ssa.Instruction) {
+								if shortens(in2) {
+									ev = true
+								}
+							})
+						}
+						// a helper that both reads the side and shortens gates itself
+						if ev && readsSide(origin(cal), t.side) {
+							ev = false
+						}
+					}
+				}
+				if !ev {
+					return
+				}
+				n++
+				key := fmt.Sprintf("%s:path shortened #%d", fnName(f), n)
+				ok := false
+				for _, g := range gates {
+					if g != in && dominatesInstr(g, in) {
+						ok = true
+					}
+				}
+				c.judge(ok, "R-ASCEND-GATED", key, in.Pos(), "a read of the "+t.what+"-side child dominates", fmt.Sprintf("%s moves the cursor up (or invalidates it) on a path where the %s-side child of the current node was never looked at: when that subtree is not empty all of its keys are skipped", t.name, t.what))
+			})
+		}
 	}
 }
